@@ -3,6 +3,7 @@
 package main
 
 import (
+	"fmt"
 	"os"
 
 	"github.com/TheCacophonyProject/thermal-recorder/motion"
@@ -24,6 +25,17 @@ func main() {
 	defer out.Flush()
 	cam := vh.Cam{X: 2, Y: 2, F: 9}
 	for si, sc := range in.Scripts {
+		runScript(out, cam, si, sc)
+	}
+}
+
+func runScript(out *vh.Out, cam vh.Cam, si int, sc Script) {
+	defer func() {
+		if p := recover(); p != nil {
+			out.Emit(map[string]interface{}{"ev": "panic", "msg": fmt.Sprint(p)})
+		}
+	}()
+	{
 		fl := motion.NewFrameLoop(sc.Cap, cam)
 		out.Emit(map[string]interface{}{"ev": "new", "cap": sc.Cap, "script": si})
 		tag := 0
